@@ -51,6 +51,13 @@ def case_grid(s: str):
     sid = dtyp.parse_sid_string(s)
     try:
         sd = _sd(s)
+        # the same SID on its way through a blob: packed by the library, unpacked again, then turned into the SD - the string must survive
+        from dpapi_ng._blob import ProtectionDescriptor
+
+        pd = ProtectionDescriptor.parse(s)
+        sd_via_blob = ProtectionDescriptor.unpack(bytes(pd.pack())).get_target_sd()
+        if bytes(sd_via_blob) != bytes(sd):
+            return ("grid.sd-differs-after-pack-unpack", {"sid": s}), None
     except Exception as e:  # noqa: BLE001
         return (f"grid.exc.{type(e).__name__}", {"sid": s, "exc": repr(e)}), None
     why = dtyp.check_target_sd(bytes(sd), sid)
@@ -68,6 +75,10 @@ def near_misses() -> t.List[t.Tuple[str, str]]:
     out += [("count0", "S-1-5"), ("count0-dash", "S-1-5-"), ("count16", "S-1-5-" + "-".join(["1"] * 16)), ("count17", "S-1-5-" + "-".join(["1"] * 17))]
     out += [("rev2digit", "S-10-5-18"), ("rev3digit", "S-100-5-18"), ("auth2^48", f"S-1-{2**48}-18"), ("auth2^64", f"S-1-{2**64}-18"), ("auth2^48+1", f"S-1-{2**48+1}-1-2")]
     out += [("lower", "s-1-5-18"), ("noprefix", "1-5-18"), ("empty", ""), ("justS", "S"), ("S-", "S-"), ("doubleS", "SS-1-5-18"), ("sddl-alias", "SY"), ("hex-auth", "S-1-0x5-18")]
+    for b in BASES:
+        for ws_name, ws in (("bom", "\ufeff"), ("zwsp", "\u200b"), ("ls", "\u2028"), ("bom-bytes-as-latin1", "\u00ef\u00bb\u00bf")):
+            out.append((f"lead-{ws_name}", ws + b))
+            out.append((f"trail-{ws_name}", b + ws))
     for b in BASES:
         parts = b.split("-")
         for ws_name, ws in (("nl", "\n"), ("crlf", "\r\n"), ("space", " "), ("tab", "\t"), ("nul", "\0"), ("vt", "\x0b"), ("nbsp", " ")):
